@@ -2420,6 +2420,8 @@ func (c *RegionCache) loadRegion(bo *retry.Backoffer, key []byte, isEndKey bool,
 		}
 		if reg == nil || reg.Meta == nil {
 			backoffErr = errors.Errorf("region not found for key %q, encode_key: %q", redact.Key(key), redact.KeyBytes(c.codec.EncodeRegionKey(key)))
+			// the answer to GetPrevRegion depends on the topology seen by the first call; start over.
+			searchPrev = false
 			continue
 		}
 		if len(reg.Meta.Peers) == 0 {
@@ -2427,6 +2429,15 @@ func (c *RegionCache) loadRegion(bo *retry.Backoffer, key []byte, isEndKey bool,
 		}
 		if isEndKey && !searchPrev && bytes.Equal(reg.Meta.StartKey, key) && len(reg.Meta.StartKey) != 0 {
 			searchPrev = true
+			continue
+		}
+		if isEndKey && searchPrev && !(bytes.Compare(reg.Meta.StartKey, key) < 0 &&
+			(len(reg.Meta.EndKey) == 0 || bytes.Compare(key, reg.Meta.EndKey) <= 0)) {
+			// GetRegion and GetPrevRegion were answered from different topologies (a split/merge in between, or
+			// PD members of different freshness): the "previous" region does not end at the key. Start over.
+			backoffErr = errors.Errorf("previous region of key %q does not contain it by end key, region: [%q, %q)",
+				redact.Key(key), redact.Key(reg.Meta.StartKey), redact.Key(reg.Meta.EndKey))
+			searchPrev = false
 			continue
 		}
 		return newRegion(bo, c, reg)
